@@ -11,7 +11,7 @@ META = {
         "table within the bound. On each path Client.table (addressed by the entry OID), Client.bulktable (by the "
         "table OID) and their PyWrapper counterparts run against the reference agent; the rows are compared with "
         "the rows derived from the database, and the variants with each other."),
-    "bounds": ["columns {1, 2, 5} x indexes {1, 11, 1.1} (quick; 11 and 1.1 differ only by the separator) / columns {1, 2, 5} x indexes {1, 2, 10, 1.2.3} and columns {1, 2} x indexes {1, 11, 1.1, 1.23, 12.3} (thorough)",
+    "bounds": ["columns {1, 2, 5} x indexes {1, 11, 1.1} (quick; 11 and 1.1 differ only by the separator) / columns {1, 2, 5} x indexes {1, 2, 10, 1.2.3} and columns {1, 2} x indexes {1, 1.23, 12.3} (thorough)",
                "neighbour objects before and after the table, one of them (7.30.x after table 7.3) sharing the table's leading digits", "bulk size 1..3 (thorough 1..4)"],
     "outside": ["larger tables", "more than one entry node below the table OID"],
     "stubs": ["sender = trampoline", "get_request_id pinned"],
@@ -100,7 +100,7 @@ def jobs(tier):
     if quick:
         shapes = [((1, 2, 5), ((1,), (11,), (1, 1)), 3)]
     else:
-        shapes = [((1, 2, 5), ((1,), (2,), (10,), (1, 2, 3)), 4), ((1, 2), ((1,), (11,), (1, 1), (1, 23), (12, 3)), 4)]
+        shapes = [((1, 2, 5), ((1,), (2,), (10,), (1, 2, 3)), 4), ((1, 2), ((1,), (1, 23), (12, 3)), 4)]
     for cols, idxs, maxbulk in shapes:
         h, n = make_harness(cols, idxs, maxbulk)
         # partition by the two neighbour bits and the first cell
